@@ -40,8 +40,15 @@ def gen_case(rng, big=False):
         k = rng.sample(labels, d)
         terms[tuple(k)] = rng.choice([-2, -1, 1, 2])
     den = 1
-    if not big and rng.random() < 0.12:
-        den = 2
+    if not big and rng.random() < 0.2:
+        # coefficients that are not whole numbers: halves and quarters such as 2.5 or 2.25 (the default penalty must still dominate)
+        den = rng.choice([2, 2, 4])
+        for k in list(terms):
+            if len(k) >= 3:
+                terms[k] = rng.choice([-9, -5, -3, 3, 5, 9, 11])
+    if not big and rng.random() < 0.06:
+        # degenerate models: a constant only, a single variable, nothing at all
+        terms = rng.choice([{(): 3}, {(labels[0],): -2, (): 1}, {}, {(labels[0], labels[1]): 2}])
     if big:
         tgt = rng.choice([TARGETS[0], TARGETS[2]])
     else:
